@@ -1,3 +1,1500 @@
+"""Hybrid pandas shim: the module cooler sees as `pandas` when loaded as `symcooler`.
+
+Inside a symbolic run every frame / series constructed through this module is an SFrame / SSeries.
+Columns are SArr (numeric, possibly symbolic), SCat (categorical: SArr of codes + concrete categories)
+or opaque concrete numpy arrays (strings, objects).  Operations on fully concrete objects that have no
+explicit model are delegated to real pandas (convert -> run -> wrap back).
+"""
+from __future__ import annotations
+
+import builtins
+
+import numpy as _np
 import pandas as _pd
+import z3
+
+from . import symnp
+from .symcore import (CTX, Inconclusive, SBool, SInt, SReal, and_, concretize, is_sym, ite, not_, or_, ssum)
+from .symnp import CArr, SArr, _A, _sel, _tolist
+
+_b_any, _b_all, _b_min, _b_max, _b_sum = builtins.any, builtins.all, builtins.min, builtins.max, builtins.sum
+
+
 def __getattr__(name):
-    return getattr(_pd, name)
+    attr = getattr(_pd, name)
+    if callable(attr) and not isinstance(attr, type):
+        def f(*a, **kw):
+            return wrap(attr(*[unwrap(x) for x in a], **{k: unwrap(v) for k, v in kw.items()}))
+        f.__name__ = name
+        return f
+    return attr
+
+
+# ---------------------------------------------------------------------------
+# columns
+# ---------------------------------------------------------------------------
+class SCat:
+    """categorical column: integer codes (SArr, -1 = missing) + concrete categories"""
+
+    def __init__(self, codes, categories, ordered=False):
+        self.codes = codes if isinstance(codes, SArr) else _A(codes)
+        if self.codes.dtype.kind not in "iu":
+            self.codes = self.codes.astype("int64")
+        self.categories = _pd.Index(categories)
+        self.ordered = ordered
+
+    def __len__(self):
+        return len(self.codes)
+
+    @property
+    def dtype(self):
+        return _pd.CategoricalDtype(self.categories, self.ordered)
+
+    def to_real(self):
+        return _pd.Categorical.from_codes(self.codes.to_real(), categories=self.categories, ordered=self.ordered)
+
+    def concrete(self):
+        return self.codes.concrete()
+
+    def __symeval__(self, m):
+        from .symcore import eval_value
+        cats = list(self.categories)
+        return [cats[c] if c >= 0 else None for c in eval_value(m, self.codes)]
+
+    def copy(self):
+        return SCat(self.codes.copy(), self.categories, self.ordered)
+
+
+def _is_opaque(col):
+    return not isinstance(col, (SArr, SCat))
+
+
+def as_col(x, n=None, dtype=None):
+    """normalise anything into a column: SArr | SCat | concrete numpy array (non numeric)"""
+    if isinstance(x, SSeries):
+        x = x._col
+    if isinstance(x, (SCat,)):
+        return x
+    if isinstance(x, SArr):
+        if dtype is not None and _np.dtype(dtype) != x.dtype:
+            return x.astype(dtype)
+        return x
+    if isinstance(x, _pd.Series):
+        x = x.array if isinstance(x.dtype, _pd.CategoricalDtype) else x.to_numpy()
+    if isinstance(x, _pd.Categorical):
+        return SCat(SArr(_np.asarray(x.codes).tolist(), x.codes.dtype), x.categories, x.ordered)
+    if isinstance(x, _pd.Index):
+        x = x.to_numpy()
+    if isinstance(x, (list, tuple, range)) or hasattr(x, "__sarr__"):
+        x = list(x) if not hasattr(x, "__sarr__") else x.__sarr__()
+        if isinstance(x, SArr):
+            return x
+        if _b_any(is_sym(v) for v in x):
+            return SArr([symnp._py(v) for v in x], dtype)
+        x = _np.array(x, dtype=dtype) if len(x) or dtype is not None else _np.array([], dtype=dtype or float)
+    if isinstance(x, _np.ndarray):
+        if x.dtype.kind in "iufb" and x.ndim == 1:
+            r = SArr(x.tolist(), x.dtype)
+            return r.astype(dtype) if dtype is not None and _np.dtype(dtype) != x.dtype else r
+        if x.dtype.kind in "US" and x.ndim == 1:
+            return _np.asarray(x, dtype=object) if x.dtype.kind == "U" else x
+        return x
+    if hasattr(x, "dtype") and hasattr(x, "__len__") and not isinstance(x, (str, bytes)):
+        return as_col(_np.asarray(x), n, dtype)
+    # scalar broadcast
+    if n is None:
+        raise TypeError(f"cannot make a column from {type(x)}")
+    if is_sym(x) or isinstance(x, (int, float, bool)) and not isinstance(x, str):
+        return SArr([x] * n, dtype)
+    return _np.array([x] * n, dtype=object)
+
+
+def col_len(c):
+    return len(c)
+
+
+def col_dtype(c):
+    if isinstance(c, (SArr, SCat)):
+        return c.dtype
+    return _pd.Series(c).dtype if c.dtype.kind == "O" else c.dtype
+
+
+def col_take(c, idx):
+    """idx: list of concrete ints"""
+    if isinstance(c, SArr):
+        its = c.items
+        return SArr([its[i] for i in idx], c.dtype)
+    if isinstance(c, SCat):
+        return SCat(col_take(c.codes, idx), c.categories, c.ordered)
+    return c[_np.array(idx, dtype=_np.intp)] if len(idx) else c[:0]
+
+
+def col_take_sym(c, pos):
+    """pos: SArr of (possibly symbolic) positions, already known in range"""
+    if isinstance(c, SArr):
+        n = len(c.items)
+        out = []
+        for p in pos.items:
+            if isinstance(p, SInt):
+                if not n:
+                    raise IndexError("positional indexers are out-of-bounds")
+                if not bool(and_(p >= -n, p < n)):
+                    raise IndexError("positional indexers are out-of-bounds")
+                out.append(_sel(c.items, ite(p < 0, p + n, p)))
+            else:
+                out.append(c.items[p])
+        return SArr(out, c.dtype)
+    if isinstance(c, SCat):
+        return SCat(col_take_sym(c.codes, pos), c.categories, c.ordered)
+    return c[_np.array([concretize(p) for p in pos.items], dtype=_np.intp)] if len(pos.items) else c[:0]
+
+
+def col_concat(cols):
+    cols = [c for c in cols]
+    if _b_all(isinstance(c, SArr) for c in cols):
+        return symnp.concatenate(cols) if cols else SArr([], float)
+    if _b_all(isinstance(c, SCat) for c in cols):
+        c0 = cols[0]
+        if _b_all(list(c.categories) == list(c0.categories) for c in cols):
+            return SCat(symnp.concatenate([c.codes for c in cols]), c0.categories, c0.ordered)
+    # mixed: fall back to objects
+    real = []
+    for c in cols:
+        if isinstance(c, SArr):
+            real.append(c.to_real())
+        elif isinstance(c, SCat):
+            real.append(_np.asarray(c.to_real().astype(object)))
+        else:
+            real.append(_np.asarray(c, dtype=object))
+    return _np.concatenate(real) if real else _np.array([], dtype=object)
+
+
+def col_real(c):
+    if isinstance(c, SArr):
+        return c.to_real()
+    if isinstance(c, SCat):
+        return c.to_real()
+    return c
+
+
+def col_concrete(c):
+    if isinstance(c, (SArr, SCat)):
+        return c.concrete()
+    return True
+
+
+def col_copy(c):
+    return c.copy()
+
+
+def col_eval(m, c):
+    from .symcore import eval_value
+    if isinstance(c, (SArr, SCat)):
+        return c.__symeval__(m)
+    return [x.decode() if isinstance(x, bytes) else (x.item() if isinstance(x, _np.generic) else x) for x in c.tolist()]
+
+
+# ---------------------------------------------------------------------------
+# index helper: None == RangeIndex(0..n)
+# ---------------------------------------------------------------------------
+class SIndex:
+    """row labels of an SFrame/SSeries (integer labels, possibly symbolic)"""
+
+    def __init__(self, arr, name=None):
+        self.arr = arr if isinstance(arr, SArr) else _A(arr)
+        self.name = name
+
+    def __len__(self):
+        return len(self.arr)
+
+    def __getitem__(self, k):
+        r = self.arr[k]
+        return SIndex(r) if isinstance(r, SArr) else r
+
+    def __iter__(self):
+        return iter(self.arr)
+
+    def __sarr__(self):
+        return self.arr
+
+    @property
+    def values(self):
+        return self.arr
+
+    def to_numpy(self, *a, **k):
+        return self.arr
+
+    def tolist(self):
+        return self.arr.tolist()
+
+    def __eq__(self, o):
+        return self.arr == (o.arr if isinstance(o, SIndex) else o)
+
+    __hash__ = None
+
+    def __symeval__(self, m):
+        return self.arr.__symeval__(m)
+
+
+def _mk_index(index, n):
+    if index is None:
+        return None
+    if isinstance(index, SIndex):
+        return index
+    if isinstance(index, _pd.RangeIndex) and index.start == 0 and index.step == 1 and len(index) == n:
+        return None
+    if isinstance(index, _pd.Index):
+        if index.dtype.kind in "iu":
+            return SIndex(SArr(index.tolist(), index.dtype))
+        return index  # opaque (string labels etc.)
+    if isinstance(index, (SArr, _np.ndarray, list, range)):
+        a = as_col(index)
+        if isinstance(a, SArr):
+            return SIndex(a)
+        return _pd.Index(a)
+    raise TypeError(f"unsupported index {type(index)}")
+
+
+def _index_arr(index, n):
+    if index is None:
+        return SArr(list(range(n)), "int64")
+    if isinstance(index, SIndex):
+        return index.arr
+    return index
+
+
+# ---------------------------------------------------------------------------
+# Series
+# ---------------------------------------------------------------------------
+class SSeries:
+    __array_ufunc__ = None
+    __hash__ = None
+
+    def __init__(self, data=None, index=None, name=None, dtype=None, _col=None, _index=None):
+        if _col is not None:
+            self._col = _col
+            self._index = _index
+            self.name = name
+            return
+        if isinstance(data, SSeries):
+            self._col, self._index, self.name = data._col, data._index, (name if name is not None else data.name)
+            if dtype is not None:
+                self._col = as_col(self._col, dtype=dtype)
+            if index is not None:
+                self._index = _mk_index(index, len(self._col))
+            return
+        if isinstance(data, dict):
+            index = list(data.keys()) if index is None else index
+            data = list(data.values())
+        if data is None:
+            data = []
+        if isinstance(data, _pd.Series) and index is None:
+            index = data.index
+            name = data.name if name is None else name
+        n = len(index) if index is not None and not hasattr(data, "__len__") else None
+        self._col = as_col(data, n=n, dtype=dtype)
+        self._index = _mk_index(index, len(self._col))
+        self.name = name
+
+    # -- conversion ---------------------------------------------------------
+    def concrete(self):
+        return col_concrete(self._col) and (not isinstance(self._index, SIndex) or self._index.arr.concrete())
+
+    def to_real(self):
+        idx = self._index
+        if isinstance(idx, SIndex):
+            idx = _pd.Index(idx.arr.to_real(), name=idx.name)
+        return _pd.Series(col_real(self._col), index=idx, name=self.name)
+
+    def __getattr__(self, name):
+        if name.startswith("_"):
+            raise AttributeError(name)
+        if self.concrete():
+            attr = getattr(self.to_real(), name)
+            if callable(attr):
+                def f(*a, **kw):
+                    return wrap(attr(*[unwrap(x) for x in a], **{k: unwrap(v) for k, v in kw.items()}))
+                return f
+            return wrap(attr)
+        raise Inconclusive(f"Series.{name} on symbolic data is not modelled")
+
+    def __symeval__(self, m):
+        return col_eval(m, self._col)
+
+    def __sarr__(self):
+        if isinstance(self._col, SArr):
+            return self._col
+        if isinstance(self._col, SCat):
+            raise Inconclusive("categorical series used as an array")
+        return _A(self._col) if self._col.dtype.kind in "iufb" else self._col
+
+    def __array__(self, dtype=None, copy=None):
+        return _np.asarray(col_real(self._col), dtype=dtype)
+
+    # -- basics -------------------------------------------------------------
+    def __len__(self):
+        return len(self._col)
+
+    def __iter__(self):
+        if isinstance(self._col, SCat):
+            if not self._col.concrete():
+                raise Inconclusive("iteration over a symbolic categorical")
+            return iter(self._col.to_real())
+        return iter(self._col)
+
+    @property
+    def dtype(self):
+        return col_dtype(self._col)
+
+    @property
+    def dtypes(self):
+        return self.dtype
+
+    @property
+    def values(self):
+        if isinstance(self._col, SCat):
+            return self._col.to_real() if self._col.concrete() else self._col
+        if isinstance(self._col, SArr):
+            return self._col
+        return self._col.view(CArr) if type(self._col) is _np.ndarray else self._col
+
+    @property
+    def array(self):
+        return self.values
+
+    def to_numpy(self, dtype=None, copy=False, **kw):
+        v = self.values
+        if isinstance(v, SArr):
+            v = v.copy() if copy else v
+            return v.astype(dtype) if dtype is not None else v
+        return _np.array(v, dtype=dtype) if copy or dtype is not None else _np.asarray(v)
+
+    @property
+    def index(self):
+        if self._index is None:
+            return _pd.RangeIndex(len(self._col))
+        return self._index
+
+    @index.setter
+    def index(self, v):
+        self._index = _mk_index(v, len(self._col))
+
+    @property
+    def shape(self):
+        return (len(self._col),)
+
+    @property
+    def size(self):
+        return len(self._col)
+
+    @property
+    def empty(self):
+        return len(self._col) == 0
+
+    def copy(self, deep=True):
+        return SSeries(_col=col_copy(self._col), _index=self._index, name=self.name)
+
+    def astype(self, dtype, **kw):
+        if isinstance(self._col, SArr):
+            if dtype in (object, "object", "O", str, "str"):
+                if self._col.concrete():
+                    return wrap(self.to_real().astype(dtype))
+                raise Inconclusive("astype(object) on symbolic numbers")
+            return SSeries(_col=self._col.astype(dtype), _index=self._index, name=self.name)
+        if isinstance(self._col, SCat):
+            if dtype in (object, "object", "O", str, "str"):
+                if self._col.concrete():
+                    return SSeries(_col=_np.asarray(self._col.to_real().astype(object)), _index=self._index, name=self.name)
+                raise Inconclusive("astype(object) on a symbolic categorical")
+            if _np.dtype(dtype).kind in "iu":
+                return SSeries(_col=self._col.codes.astype(dtype), _index=self._index, name=self.name)
+        return wrap(self.to_real().astype(dtype, **kw))
+
+    def to_frame(self, name=None):
+        return SFrame({name or self.name or 0: self._col}, index=self._index)
+
+    def tolist(self):
+        return list(self)
+
+    to_list = tolist
+
+    def keys(self):
+        return self.index
+
+    def items(self):
+        idx = self.index
+        return zip(list(idx), list(self))
+
+    def rename(self, name=None, **kw):
+        if callable(name) or isinstance(name, dict):
+            return wrap(self.to_real().rename(name, **kw))
+        return SSeries(_col=self._col, _index=self._index, name=name)
+
+    def reset_index(self, drop=False, **kw):
+        if drop:
+            return SSeries(_col=self._col, _index=None, name=self.name)
+        raise Inconclusive("Series.reset_index(drop=False)")
+
+    # -- element-wise -------------------------------------------------------
+    def _arr(self):
+        if isinstance(self._col, SArr):
+            return self._col
+        if isinstance(self._col, SCat):
+            raise Inconclusive("arithmetic on a categorical")
+        return self._col
+
+    def _bin(self, o, op):
+        if isinstance(o, SSeries):
+            o = o._arr()
+        a = self._arr()
+        if not isinstance(a, SArr):
+            if isinstance(o, (SArr, SInt, SReal, SBool)):
+                raise Inconclusive("object column combined with symbolic data")
+            return wrap(getattr(self.to_real(), op)(unwrap(o)))
+        r = getattr(a, op)(o)
+        if r is NotImplemented:
+            return r
+        return SSeries(_col=r, _index=self._index, name=self.name)
+
+    def __add__(self, o): return self._bin(o, "__add__")
+    def __radd__(self, o): return self._bin(o, "__radd__")
+    def __sub__(self, o): return self._bin(o, "__sub__")
+    def __rsub__(self, o): return self._bin(o, "__rsub__")
+    def __mul__(self, o): return self._bin(o, "__mul__")
+    def __rmul__(self, o): return self._bin(o, "__rmul__")
+    def __truediv__(self, o): return self._bin(o, "__truediv__")
+    def __rtruediv__(self, o): return self._bin(o, "__rtruediv__")
+    def __floordiv__(self, o): return self._bin(o, "__floordiv__")
+    def __mod__(self, o): return self._bin(o, "__mod__")
+    def __lt__(self, o): return self._bin(o, "__lt__")
+    def __le__(self, o): return self._bin(o, "__le__")
+    def __gt__(self, o): return self._bin(o, "__gt__")
+    def __ge__(self, o): return self._bin(o, "__ge__")
+    def __eq__(self, o):
+        if isinstance(self._col, SCat):
+            oc = o._col if isinstance(o, SSeries) else o
+            if isinstance(oc, SCat) and list(oc.categories) == list(self._col.categories):
+                return SSeries(_col=self._col.codes == oc.codes, _index=self._index, name=self.name)
+            if self._col.concrete():
+                return wrap(self.to_real() == unwrap(o))
+            raise Inconclusive("categorical comparison")
+        return self._bin(o, "__eq__")
+    def __ne__(self, o): return self._bin(o, "__ne__")
+    def __and__(self, o): return self._bin(o, "__and__")
+    def __rand__(self, o): return self._bin(o, "__rand__")
+    def __or__(self, o): return self._bin(o, "__or__")
+    def __ror__(self, o): return self._bin(o, "__ror__")
+    def __invert__(self): return SSeries(_col=~self._arr(), _index=self._index, name=self.name)
+    def __neg__(self): return SSeries(_col=-self._arr(), _index=self._index, name=self.name)
+    def __abs__(self): return SSeries(_col=abs(self._arr()), _index=self._index, name=self.name)
+
+    def _iop(self, o, op):
+        r = self._bin(o, op)
+        self._col = r._col.astype(self._col.dtype) if isinstance(r._col, SArr) and isinstance(self._col, SArr) and r._col.dtype != self._col.dtype else r._col
+        if self._owner is not None:
+            self._owner[0]._cols[self._owner[1]] = self._col
+        return self
+
+    _owner = None
+
+    def __isub__(self, o): return self._iop(o, "__sub__")
+    def __iadd__(self, o): return self._iop(o, "__add__")
+    def __imul__(self, o): return self._iop(o, "__mul__")
+
+    def __bool__(self):
+        raise ValueError("The truth value of a Series is ambiguous.")
+
+    # -- reductions -----------------------------------------------------------
+    def any(self, *a, **k): return self._arr().any() if isinstance(self._col, SArr) else builtins.bool(self.to_real().any())
+    def all(self, *a, **k): return self._arr().all() if isinstance(self._col, SArr) else builtins.bool(self.to_real().all())
+    def sum(self, *a, **k): return self._arr().sum()
+    def min(self, *a, **k): return self._arr().min()
+    def max(self, *a, **k): return self._arr().max()
+    def mean(self, *a, **k): return self._arr().mean()
+
+    def unique(self):
+        if isinstance(self._col, SArr):
+            # order of first appearance (pandas), forks on equalities
+            out = []
+            for x in self._col.items:
+                if not _b_any(builtins.bool(x == y) for y in out):
+                    out.append(x)
+            return SArr(out, self._col.dtype)
+        return wrap(self.to_real().unique())
+
+    def isin(self, vals):
+        if isinstance(self._col, SArr):
+            vals = list(vals)
+            return SSeries(_col=SArr([or_(*[x == v for v in vals]) for x in self._col.items], bool), _index=self._index, name=self.name)
+        return wrap(self.to_real().isin(vals))
+
+    def isnull(self):
+        if isinstance(self._col, SArr):
+            return SSeries(_col=symnp.isnan(self._col) if self._col.dtype.kind == "f" else SArr([False] * len(self._col), bool),
+                           _index=self._index, name=self.name)
+        return wrap(self.to_real().isnull())
+
+    isna = isnull
+
+    def searchsorted(self, v, side="left"):
+        return symnp.searchsorted(self._arr(), v, side)
+
+    # -- selection ------------------------------------------------------------
+    @property
+    def iloc(self):
+        return _ILoc(self)
+
+    @property
+    def loc(self):
+        return _Loc(self)
+
+    def _rows(self, idx):
+        return SSeries(_col=col_take(self._col, idx), _index=_take_index(self._index, idx, len(self._col)), name=self.name)
+
+    def __getitem__(self, k):
+        if isinstance(k, SSeries):
+            k = k._col
+        if isinstance(k, SArr) and k.dtype.kind == "b" or (isinstance(k, _np.ndarray) and k.dtype.kind == "b"):
+            return self._rows(_mask_positions(k, len(self._col)))
+        if isinstance(k, slice):
+            return self._rows(list(range(len(self._col)))[_cslice(k)])
+        # label lookup
+        if self._index is None:
+            if isinstance(k, (int, _np.integer)):
+                return self._col[k] if not isinstance(self._col, SCat) else self._col.to_real()[k]
+            if isinstance(k, SInt):
+                return self._arr()[k]
+        if self.concrete() or not isinstance(self._index, SIndex):
+            if isinstance(self._col, SArr) and not isinstance(self._index, SIndex):
+                # concrete label index over (possibly symbolic) values
+                pos = self.index.get_loc(k)
+                return self._col.items[pos] if isinstance(pos, (int, _np.integer)) else self._rows(list(_np.arange(len(self._col))[pos]))
+            return wrap(self.to_real()[unwrap(k)])
+        raise Inconclusive("Series label lookup on a symbolic index")
+
+    def get(self, k, default=None):
+        try:
+            return self[k]
+        except KeyError:
+            return default
+
+    def __contains__(self, k):
+        return k in self.index
+
+    def __setitem__(self, k, v):
+        if isinstance(k, SSeries):
+            k = k._col
+        if isinstance(self._col, SArr):
+            self._col[k] = v._col if isinstance(v, SSeries) else v
+            return
+        raise Inconclusive("Series.__setitem__ on a non-numeric column")
+
+    @property
+    def cat(self):
+        if not isinstance(self._col, SCat):
+            raise AttributeError("Can only use .cat accessor with a 'category' dtype")
+        return _CatAccessor(self)
+
+    @property
+    def str(self):
+        return self.to_real().str
+
+    def head(self, n=5):
+        return self._rows(list(range(_b_min(n, len(self._col)))))
+
+    def equals(self, o):
+        raise Inconclusive("Series.equals")
+
+
+class _CatAccessor:
+    def __init__(self, s):
+        self.s = s
+
+    @property
+    def codes(self):
+        return SSeries(_col=self.s._col.codes, _index=self.s._index, name=self.s.name)
+
+    @property
+    def categories(self):
+        return self.s._col.categories
+
+    @property
+    def ordered(self):
+        return self.s._col.ordered
+
+
+def _cslice(k):
+    return slice(None if k.start is None else concretize(k.start), None if k.stop is None else concretize(k.stop),
+                 None if k.step is None else concretize(k.step))
+
+
+def _mask_positions(mask, n):
+    """positions selected by a boolean mask (forks on symbolic bits)"""
+    its, _ = _tolist(mask)
+    if len(its) != n:
+        raise IndexError(f"Item wrong length {len(its)} instead of {n}.")
+    return [i for i, m in enumerate(its) if builtins.bool(m)]
+
+
+def _take_index(index, idx, n):
+    if index is None:
+        if idx == list(range(len(idx))) and len(idx) == n:
+            return None
+        return SIndex(SArr(list(idx), "int64"))
+    if isinstance(index, SIndex):
+        return SIndex(col_take(index.arr, idx), index.name)
+    return index[_np.array(idx, dtype=_np.intp)] if len(idx) else index[:0]
+
+
+# ---------------------------------------------------------------------------
+# DataFrame
+# ---------------------------------------------------------------------------
+class SFrame:
+    __array_ufunc__ = None
+    __hash__ = None
+
+    def __init__(self, data=None, index=None, columns=None, dtype=None, copy=None):
+        self._cols = {}
+        self._index = None
+        if isinstance(data, SFrame):
+            self._cols = dict(data._cols)
+            self._index = data._index
+            if columns is not None:
+                self._cols = {c: self._cols[c] for c in columns}
+            return
+        if isinstance(data, _pd.DataFrame):
+            for c in data.columns:
+                self._cols[c] = as_col(data[c])
+            self._index = _mk_index(data.index, len(data))
+            if columns is not None:
+                self._cols = {c: self._cols[c] for c in columns}
+            return
+        if data is None:
+            data = {}
+        if isinstance(data, (list, tuple)) and not len(data):
+            data = {}
+        if isinstance(data, SArr) and data.ndim == 2 or isinstance(data, _np.ndarray) and data.ndim == 2:
+            arr = _A(data)
+            nr, nc = arr.shape
+            names = list(columns) if columns is not None else list(range(nc))
+            data = {names[j]: SArr([arr.items[i * nc + j] for i in range(nr)], arr.dtype) for j in range(nc)}
+            columns = None
+        if not hasattr(data, "items"):
+            raise Inconclusive(f"DataFrame constructor from {type(data)}")
+        n = None
+        for k, v in data.items():
+            if hasattr(v, "__len__") and not isinstance(v, (str, bytes)):
+                n = len(v)
+                break
+        if n is None and index is not None:
+            n = len(index)
+        for k, v in data.items():
+            if isinstance(v, SSeries) and self._index is None and index is None and v._index is not None:
+                self._index = v._index
+            self._cols[k] = as_col(v, n=n if n is not None else 0)
+        if columns is not None:
+            cols = {}
+            for c in columns:
+                if c in self._cols:
+                    cols[c] = self._cols[c]
+                else:
+                    cols[c] = _np.array([_np.nan] * (n or 0), dtype=object) if n else SArr([], "float64") if False else _np.array([], dtype=object)
+            self._cols = cols
+        lens = {len(c) for c in self._cols.values()}
+        if len(lens) > 1:
+            raise ValueError("All arrays must be of the same length")
+        if index is not None:
+            nrows = lens.pop() if lens else len(index)
+            if len(index) != nrows:
+                raise ValueError(f"Length of values ({nrows}) does not match length of index ({len(index)})")
+            self._index = _mk_index(index, nrows)
+
+    # -- conversion ---------------------------------------------------------
+    def concrete(self):
+        return _b_all(col_concrete(c) for c in self._cols.values()) and \
+            (not isinstance(self._index, SIndex) or self._index.arr.concrete())
+
+    def to_real(self):
+        idx = self._index
+        if isinstance(idx, SIndex):
+            idx = _pd.Index(idx.arr.to_real(), name=idx.name)
+        if not self._cols:
+            return _pd.DataFrame(index=idx)
+        df = _pd.DataFrame({k: col_real(c) for k, c in self._cols.items()})
+        if idx is not None:
+            df.index = idx
+        return df
+
+    def __getattr__(self, name):
+        if name.startswith("_"):
+            raise AttributeError(name)
+        cols = self.__dict__.get("_cols", {})
+        if name in cols:
+            return self[name]
+        if self.concrete():
+            attr = getattr(self.to_real(), name)
+            if callable(attr):
+                def f(*a, **kw):
+                    return wrap(attr(*[unwrap(x) for x in a], **{k: unwrap(v) for k, v in kw.items()}))
+                return f
+            return wrap(attr)
+        raise Inconclusive(f"DataFrame.{name} on symbolic data is not modelled")
+
+    def __symeval__(self, m):
+        out = {str(k): col_eval(m, c) for k, c in self._cols.items()}
+        out["__index__"] = col_eval(m, _index_arr(self._index, len(self))) if not isinstance(self._index, _pd.Index) else list(self._index)
+        return out
+
+    # -- basics ---------------------------------------------------------------
+    def __len__(self):
+        for c in self._cols.values():
+            return len(c)
+        if self._index is not None:
+            return len(self._index)
+        return 0
+
+    @property
+    def columns(self):
+        return _pd.Index(list(self._cols.keys()))
+
+    @columns.setter
+    def columns(self, names):
+        names = list(names)
+        assert len(names) == len(self._cols)
+        self._cols = dict(zip(names, self._cols.values()))
+
+    def keys(self):
+        return self.columns
+
+    def __iter__(self):
+        return iter(list(self._cols.keys()))
+
+    def __contains__(self, k):
+        return k in self._cols
+
+    def items(self):
+        return [(k, self[k]) for k in list(self._cols)]
+
+    @property
+    def dtypes(self):
+        return _pd.Series({k: col_dtype(c) for k, c in self._cols.items()}, dtype=object)
+
+    @property
+    def shape(self):
+        return (len(self), len(self._cols))
+
+    @property
+    def empty(self):
+        return len(self) == 0 or not self._cols
+
+    @property
+    def index(self):
+        if self._index is None:
+            return _pd.RangeIndex(len(self))
+        return self._index
+
+    @index.setter
+    def index(self, v):
+        if isinstance(v, _pd.RangeIndex) and v.start == 0 and v.step == 1:
+            self._index = None
+        else:
+            self._index = _mk_index(v, len(self))
+
+    @property
+    def values(self):
+        cols = list(self._cols.values())
+        if _b_all(isinstance(c, SArr) for c in cols):
+            n = len(self)
+            return SArr([c.items[i] for i in range(n) for c in cols], symnp._np.result_type(*[c.dtype for c in cols]) if cols else float,
+                        (n, len(cols)))
+        return self.to_real().values
+
+    def to_numpy(self, *a, **k):
+        return self.values
+
+    def copy(self, deep=True):
+        r = SFrame()
+        r._cols = {k: col_copy(c) for k, c in self._cols.items()}
+        r._index = self._index
+        return r
+
+    def head(self, n=5):
+        return self._rows(list(range(_b_min(n, len(self)))))
+
+    def to_csv(self, *a, **kw):
+        if self.concrete():
+            return self.to_real().to_csv(*a, **kw)
+        return "<symbolic rows>"
+
+    def __repr__(self):
+        return f"<SFrame {len(self)}x{len(self._cols)} {list(self._cols)}>"
+
+    def __format__(self, spec):
+        return repr(self)
+
+    # -- selection --------------------------------------------------------------
+    def _rows(self, idx):
+        r = SFrame()
+        n = len(self)
+        r._cols = {k: col_take(c, idx) for k, c in self._cols.items()}
+        r._index = _take_index(self._index, idx, n)
+        return r
+
+    def _rows_sym(self, pos):
+        r = SFrame()
+        r._cols = {k: col_take_sym(c, pos) for k, c in self._cols.items()}
+        ia = _index_arr(self._index, len(self))
+        r._index = SIndex(col_take_sym(ia, pos)) if isinstance(ia, SArr) else ia[_np.array([concretize(p) for p in pos.items], dtype=_np.intp)]
+        return r
+
+    def __getitem__(self, k):
+        if isinstance(k, str) or (not isinstance(k, (list, SSeries, SArr, _np.ndarray, slice, _pd.Index, _pd.Series)) and k in self._cols):
+            if k not in self._cols:
+                raise KeyError(k)
+            s = SSeries(_col=self._cols[k], _index=self._index, name=k)
+            s._owner = (self, k)
+            return s
+        if isinstance(k, SSeries):
+            k = k._col
+        if isinstance(k, _pd.Series):
+            k = k.to_numpy()
+        if isinstance(k, _pd.Index):
+            k = list(k)
+        if isinstance(k, (SArr, _np.ndarray)) and k.dtype.kind == "b":
+            return self._rows(_mask_positions(k, len(self)))
+        if isinstance(k, (list, _np.ndarray)):
+            k = list(k)
+            if k and isinstance(k[0], (bool, SBool, _np.bool_)):
+                return self._rows(_mask_positions(k, len(self)))
+            for c in k:
+                if c not in self._cols:
+                    raise KeyError(f"{c} not in index")
+            r = SFrame()
+            r._cols = {c: self._cols[c] for c in k}
+            r._index = self._index
+            return r
+        if isinstance(k, slice):
+            return self._rows(list(range(len(self)))[_cslice(k)])
+        raise KeyError(k)
+
+    def __setitem__(self, k, v):
+        n = len(self) if self._cols or self._index is not None else None
+        if isinstance(k, list):
+            if isinstance(v, SFrame):
+                for c, (_, s) in zip(k, v.items()):
+                    self[c] = s
+                return
+            raise Inconclusive("multi-column assignment")
+        if isinstance(v, (_pd.Series, SSeries)) or hasattr(v, "__len__") and not isinstance(v, (str, bytes)):
+            c = as_col(v)
+            if n is not None and len(c) != n:
+                raise ValueError(f"Length of values ({len(c)}) does not match length of index ({n})")
+            self._cols[k] = c
+        else:
+            self._cols[k] = as_col(v, n=n or 0)
+
+    def __delitem__(self, k):
+        del self._cols[k]
+
+    def pop(self, k):
+        s = self[k]
+        del self._cols[k]
+        return s
+
+    def get(self, k, default=None):
+        return self[k] if k in self._cols else default
+
+    @property
+    def loc(self):
+        return _Loc(self)
+
+    @property
+    def iloc(self):
+        return _ILoc(self)
+
+    def drop(self, labels=None, axis=0, columns=None, **kw):
+        if columns is not None:
+            labels, axis = columns, 1
+        if axis in (1, "columns"):
+            labels = [labels] if isinstance(labels, str) else list(labels)
+            r = SFrame()
+            r._cols = {k: c for k, c in self._cols.items() if k not in labels}
+            r._index = self._index
+            return r
+        raise Inconclusive("DataFrame.drop(rows)")
+
+    def rename(self, mapper=None, columns=None, index=None, axis=None, **kw):
+        if columns is None and axis in (1, "columns"):
+            columns = mapper
+        if columns is None:
+            if self.concrete():
+                return wrap(self.to_real().rename(mapper, index=index, axis=axis, **kw))
+            raise Inconclusive("DataFrame.rename(index)")
+        f = columns if callable(columns) else (lambda c: columns.get(c, c))
+        r = SFrame()
+        r._cols = {f(k): c for k, c in self._cols.items()}
+        r._index = self._index
+        return r
+
+    def reset_index(self, drop=False, **kw):
+        r = SFrame()
+        if not drop:
+            pend = self.__dict__.get("_index_cols")
+            if pend:
+                for name, col in pend:
+                    r._cols[name] = col
+            elif self._index is not None or True:
+                name = getattr(self._index, "name", None) or "index"
+                r._cols[name] = _index_arr(self._index, len(self)) if not isinstance(self._index, _pd.Index) else _np.asarray(self._index)
+        r._cols.update(self._cols)
+        r._index = None
+        return r
+
+    def set_index(self, key, **kw):
+        if self.concrete():
+            return wrap(self.to_real().set_index(key, **kw))
+        col = self._cols[key]
+        r = SFrame()
+        r._cols = {k: c for k, c in self._cols.items() if k != key}
+        r._index = SIndex(col, name=key) if isinstance(col, SArr) else _pd.Index(col_real(col), name=key)
+        return r
+
+    def astype(self, dtype, **kw):
+        r = self.copy()
+        if isinstance(dtype, dict):
+            for k, d in dtype.items():
+                r._cols[k] = r[k].astype(d)._col
+        else:
+            for k in r._cols:
+                r._cols[k] = r[k].astype(dtype)._col
+        return r
+
+    def _order(self, keys, stable_positions=None):
+        """row order sorted by keys (stable insertion sort, forks on symbolic comparisons)"""
+        n = len(self)
+        kc = []
+        for k in keys:
+            c = self._cols[k]
+            kc.append(c.codes.items if isinstance(c, SCat) else (c.items if isinstance(c, SArr) else list(c)))
+
+        def less(i, j):
+            for col in kc:
+                a, b = col[i], col[j]
+                if builtins.bool(a < b):
+                    return True
+                if builtins.bool(b < a):
+                    return False
+            return False
+        out = []
+        for i in range(n):
+            pos = len(out)
+            while pos > 0 and less(i, out[pos - 1]):
+                pos -= 1
+            out.insert(pos, i)
+        return out
+
+    def sort_values(self, by, ascending=True, **kw):
+        by = [by] if isinstance(by, str) else list(by)
+        if not ascending:
+            raise Inconclusive("sort_values(descending)")
+        return self._rows(self._order(by))
+
+    def duplicated(self, subset=None, keep="first"):
+        keys = list(subset) if subset is not None else list(self._cols)
+        if isinstance(subset, str):
+            keys = [subset]
+        n = len(self)
+        kc = [self._cols[k].codes.items if isinstance(self._cols[k], SCat) else _A(self._cols[k]).items for k in keys]
+        out = []
+        for i in range(n):
+            others = range(i) if keep == "first" else range(i + 1, n)
+            out.append(or_(*[and_(*[col[i] == col[j] for col in kc]) for j in others]))
+        return SSeries(_col=SArr(out, bool), _index=self._index)
+
+    def drop_duplicates(self, subset=None, keep="first", **kw):
+        d = self.duplicated(subset, keep)
+        return self[~d]
+
+    def groupby(self, by, sort=True, observed=False, **kw):
+        return SGroupBy(self, [by] if isinstance(by, str) else list(by), sort, observed)
+
+    def equals(self, o):
+        raise Inconclusive("DataFrame.equals")
+
+    def _cmp(self, o, op):
+        if not isinstance(o, (SFrame, _pd.DataFrame)):
+            raise Inconclusive("frame comparison with non-frame")
+        o = o if isinstance(o, SFrame) else SFrame(o)
+        if list(o._cols) != list(self._cols) or len(o) != len(self):
+            raise ValueError("Can only compare identically-labeled (both index and columns) DataFrame objects")
+        r = SFrame()
+        for k in self._cols:
+            r._cols[k] = getattr(self[k], op)(o[k])._col
+        r._index = self._index
+        return r
+
+    def __eq__(self, o): return self._cmp(o, "__eq__")
+    def __ne__(self, o): return self._cmp(o, "__ne__")
+
+    def all(self, axis=0, **kw):
+        if axis is None:
+            return and_(*[self[k].all() for k in self._cols])
+        return _pd.Series({k: self[k].all() for k in self._cols}) if self.concrete() else SSeries(
+            _col=SArr([self[k].all() for k in self._cols], bool), _index=_pd.Index(list(self._cols)))
+
+    def __sarr__(self):
+        v = self.values
+        if isinstance(v, SArr):
+            return v
+        raise Inconclusive("non-numeric frame used as an array")
+
+    def __array__(self, dtype=None, copy=None):
+        return _np.asarray(self.to_real(), dtype=dtype)
+
+
+class _Loc:
+    def __init__(self, obj):
+        self.obj = obj
+
+    def _row_positions(self, rk):
+        obj = self.obj
+        n = len(obj)
+        if isinstance(rk, SSeries):
+            rk = rk._col
+        if isinstance(rk, (SArr, _np.ndarray, list)) and len(rk) == n and (
+                (hasattr(rk, "dtype") and rk.dtype.kind == "b") or (isinstance(rk, list) and n and isinstance(rk[0], (bool, SBool)))):
+            return "mask", rk
+        if isinstance(rk, slice):
+            # label slice, end-inclusive, on an integer (possibly symbolic) index
+            ia = _index_arr(obj._index, n)
+            if not isinstance(ia, SArr):
+                raise Inconclusive("loc slice on a non-integer index")
+            lo, hi = rk.start, rk.stop
+            pos = [i for i, lab in enumerate(ia.items)
+                   if builtins.bool(and_(True if lo is None else lab >= lo, True if hi is None else lab <= hi))]
+            return "pos", pos
+        raise Inconclusive(f"loc with {type(rk)}")
+
+    def __getitem__(self, k):
+        obj = self.obj
+        if isinstance(k, tuple):
+            rk, ck = k
+            kind, sel = self._row_positions(rk)
+            if kind == "mask":
+                if isinstance(obj, SFrame):
+                    col = obj._cols[ck]
+                    if isinstance(col, SArr):
+                        return SSeries(_col=col[sel if isinstance(sel, SArr) else _A(sel)], name=ck)
+                    return obj[ck]._rows(_mask_positions(sel, len(obj)))
+            raise Inconclusive("loc[rows, cols] getter form")
+        kind, sel = self._row_positions(k)
+        if kind == "mask":
+            return obj[sel] if isinstance(obj, SFrame) else obj[sel]
+        return obj._rows(sel)
+
+    def __setitem__(self, k, v):
+        obj = self.obj
+        if not isinstance(k, tuple) or not isinstance(obj, SFrame):
+            raise Inconclusive("loc setter form")
+        rk, ck = k
+        kind, sel = self._row_positions(rk)
+        if kind != "mask":
+            raise Inconclusive("loc[slice, col] = ...")
+        col = obj._cols[ck]
+        if isinstance(v, SSeries):
+            v = v._col
+        if isinstance(col, SArr):
+            col = col.copy()
+            col[sel if isinstance(sel, (SArr, _np.ndarray)) else _A(sel)] = v
+            obj._cols[ck] = col
+            return
+        if isinstance(col, SCat):
+            if isinstance(v, SCat):
+                v = v.codes
+            codes = col.codes.copy()
+            codes[sel if isinstance(sel, (SArr, _np.ndarray)) else _A(sel)] = v
+            obj._cols[ck] = SCat(codes, col.categories, col.ordered)
+            return
+        # opaque column: positions must be concrete
+        pos = _mask_positions(sel, len(obj))
+        col = col.copy()
+        vals = list(v) if hasattr(v, "__len__") and not isinstance(v, str) else [v] * len(pos)
+        for p, x in zip(pos, vals):
+            col[p] = x
+        obj._cols[ck] = col
+
+
+class _ILoc:
+    def __init__(self, obj):
+        self.obj = obj
+
+    def __getitem__(self, k):
+        obj = self.obj
+        n = len(obj)
+        if isinstance(k, tuple):
+            raise Inconclusive("iloc[rows, cols]")
+        if isinstance(k, slice):
+            return obj._rows(list(range(n))[_cslice(k)])
+        if isinstance(k, SSeries):
+            k = k._col
+        if hasattr(k, "__sarr__"):
+            k = k.__sarr__()
+        if isinstance(k, SArr):
+            if k.dtype.kind == "b":
+                return obj._rows(_mask_positions(k, n))
+            if k.concrete():
+                return obj._rows([i if i >= 0 else i + n for i in (builtins.int(x) for x in k.items)])
+            if isinstance(obj, SSeries):
+                ia = _index_arr(obj._index, n)
+                return SSeries(_col=col_take_sym(obj._col, k), _index=SIndex(col_take_sym(ia, k)) if isinstance(ia, SArr) else None, name=obj.name)
+            return obj._rows_sym(k)
+        if isinstance(k, (list, _np.ndarray)):
+            ks = list(k)
+            if ks and isinstance(ks[0], (bool, _np.bool_)):
+                return obj._rows(_mask_positions(ks, n))
+            for i in ks:
+                if not -n <= i < n:
+                    raise IndexError("positional indexers are out-of-bounds")
+            return obj._rows([builtins.int(i) if i >= 0 else builtins.int(i) + n for i in ks])
+        if isinstance(k, SInt):
+            k = concretize(k)
+        if isinstance(k, (int, _np.integer)):
+            if not -n <= k < n:
+                raise IndexError("single positional indexer is out-of-bounds")
+            if isinstance(obj, SSeries):
+                c = obj._col
+                return c.items[k] if isinstance(c, SArr) else (c.to_real()[k] if isinstance(c, SCat) else c[k])
+            raise Inconclusive("frame.iloc[int]")
+        raise Inconclusive(f"iloc with {type(k)}")
+
+
+# ---------------------------------------------------------------------------
+# groupby
+# ---------------------------------------------------------------------------
+class SGroupBy:
+    def __init__(self, frame, keys, sort=True, observed=False, cols=None):
+        self.frame, self.keys, self.sort, self.observed, self.cols = frame, keys, sort, observed, cols
+        self._groups = None
+
+    def _keycols(self):
+        out = []
+        for k in self.keys:
+            c = self.frame._cols[k]
+            out.append(c.codes.items if isinstance(c, SCat) else (c.items if isinstance(c, SArr) else list(c)))
+        return out
+
+    def groups_(self):
+        """list of (representative row, [row positions]) in output order"""
+        if self._groups is not None:
+            return self._groups
+        f = self.frame
+        kc = self._keycols()
+        n = len(f)
+        # drop rows with missing categorical keys (code -1), as pandas does
+        rows = []
+        for i in range(n):
+            miss = False
+            for k, col in zip(self.keys, kc):
+                if isinstance(f._cols[k], SCat) and builtins.bool(col[i] < 0):
+                    miss = True
+            if not miss:
+                rows.append(i)
+        order = [i for i in f._order(self.keys) if i in set(rows)] if self.sort else rows
+        groups = []
+        for i in order:
+            for g in (groups[-1:] if self.sort else groups):
+                j = g[0]
+                if builtins.bool(and_(*[col[i] == col[j] for col in kc])):
+                    g[1].append(i)
+                    break
+            else:
+                groups.append((i, [i]))
+        if not self.sort:
+            pass
+        for g in groups:
+            g[1].sort()
+        # unobserved categories (observed=False) would add empty groups: only categorical keys
+        if not self.observed and len(self.keys) == 1 and isinstance(f._cols[self.keys[0]], SCat):
+            cat = f._cols[self.keys[0]]
+            present = {concretize(kc[0][g[0]]) for g in groups}
+            extra = [c for c in range(len(cat.categories)) if c not in present]
+            if extra:
+                self._empty_codes = extra
+        self._groups = groups
+        return groups
+
+    def __getitem__(self, cols):
+        return SGroupBy(self.frame, self.keys, self.sort, self.observed, cols)
+
+    def _value_cols(self):
+        if self.cols is None:
+            return [c for c in self.frame._cols if c not in self.keys]
+        return [self.cols] if isinstance(self.cols, str) else list(self.cols)
+
+    def _key_value(self, k, row):
+        c = self.frame._cols[k]
+        if isinstance(c, SCat):
+            return c.categories[concretize(c.codes.items[row])]
+        if isinstance(c, SArr):
+            return c.items[row]
+        return c[row]
+
+    def __iter__(self):
+        for rep, rows in self.groups_():
+            key = tuple(self._key_value(k, rep) for k in self.keys)
+            yield (key[0] if len(key) == 1 else key), self._subframe(rows)
+
+    def _subframe(self, rows):
+        sub = self.frame._rows(rows)
+        if self.cols is not None:
+            sub = sub[self.cols if not isinstance(self.cols, str) else [self.cols]]
+            if isinstance(self.cols, str):
+                return sub[self.cols]
+        return sub
+
+    def get_group(self, name):
+        for key, sub in self:
+            if key == name or (isinstance(name, tuple) and len(name) == 1 and key == name[0]):
+                return sub
+        raise KeyError(name)
+
+    def size(self):
+        gs = self.groups_()
+        idx = self._result_index(gs)
+        s = SSeries(_col=SArr([len(rows) for _, rows in gs], "int64"), _index=None)
+        s._index_cols = idx
+        if len(self.keys) == 1:
+            labs = idx[0][1]
+            s._index = _pd.Index(col_real(labs) if col_concrete(labs) else _np.arange(len(gs)), name=self.keys[0])
+        return s
+
+    def _result_index(self, gs):
+        out = []
+        for k in self.keys:
+            c = self.frame._cols[k]
+            out.append((k, col_take(c, [rep for rep, _ in gs])))
+        return out
+
+    @staticmethod
+    def _agg1(col, rows, how):
+        if isinstance(col, SCat):
+            raise Inconclusive("aggregation of a categorical column")
+        items = [col.items[i] for i in rows] if isinstance(col, SArr) else [col[i] for i in rows]
+        if callable(how):
+            return how(SSeries(_col=SArr(items, col.dtype)))
+        if how == "sum":
+            return ssum(items)
+        if how in ("size", "count"):
+            if how == "count" and isinstance(col, SArr) and col.dtype.kind == "f":
+                return ssum([ite(symnp._isnan1(x), 0, 1) if isinstance(x, SReal) else (0 if x != x else 1) for x in items])
+            return len(items)
+        if how == "max":
+            return symnp._reduce_minmax(items, False)
+        if how == "min":
+            return symnp._reduce_minmax(items, True)
+        if how == "mean":
+            return symnp._truediv(ssum(items), len(items))
+        if how == "first":
+            return items[0]
+        if how == "last":
+            return items[-1]
+        raise Inconclusive(f"groupby aggregation {how!r}")
+
+    @staticmethod
+    def _agg_dtype(col, how):
+        if how in ("size", "count"):
+            return _np.dtype("int64")
+        if how == "mean":
+            return _np.dtype("float64")
+        if how == "sum" and isinstance(col, SArr):
+            k = col.dtype.kind
+            return _np.dtype("int64") if k in "ib" else (_np.dtype("uint64") if k == "u" else col.dtype)
+        return col.dtype if isinstance(col, SArr) else None
+
+    def aggregate(self, spec):
+        gs = self.groups_()
+        f = self.frame
+        r = SFrame()
+        if isinstance(spec, dict):
+            for colname, how in spec.items():
+                col = f._cols[colname]
+                r._cols[colname] = SArr([self._agg1(col, rows, how) for _, rows in gs], self._agg_dtype(col, how))
+        else:
+            for colname in self._value_cols():
+                col = f._cols[colname]
+                r._cols[colname] = SArr([self._agg1(col, rows, spec) for _, rows in gs], self._agg_dtype(col, spec))
+        r._index_cols = self._result_index(gs)
+        r._index = SIndex(SArr(list(range(len(gs))), "int64"))  # placeholder for the (multi)index
+        return r
+
+    agg = aggregate
+
+    def sum(self):
+        return self.aggregate("sum")
+
+    def apply(self, func, *a, **kw):
+        parts = []
+        for key, sub in self:
+            if isinstance(sub, SFrame):
+                sub.__dict__["name"] = key
+            else:
+                sub.name = key
+            parts.append(func(sub, *a, **kw))
+        if not parts:
+            return SFrame()
+        return concat(parts, axis=0)
+
+
+# ---------------------------------------------------------------------------
+# module-level API
+# ---------------------------------------------------------------------------
+def wrap(x):
+    if isinstance(x, _pd.DataFrame):
+        return SFrame(x)
+    if isinstance(x, _pd.Series):
+        if x.dtype.kind in "iufb" or isinstance(x.dtype, _pd.CategoricalDtype):
+            if isinstance(x.index, _pd.RangeIndex) or x.index.dtype.kind in "iu":
+                return SSeries(x)
+        return x
+    if type(x) is _np.ndarray:
+        return x.view(CArr)
+    if isinstance(x, tuple):
+        return tuple(wrap(y) for y in x)
+    return x
+
+
+def unwrap(x):
+    if isinstance(x, (SFrame, SSeries)):
+        return x.to_real()
+    if isinstance(x, SCat):
+        return x.to_real()
+    if isinstance(x, SArr):
+        return x.to_real()
+    if isinstance(x, SIndex):
+        return _pd.Index(x.arr.to_real())
+    if isinstance(x, list):
+        return [unwrap(y) for y in x]
+    if isinstance(x, tuple):
+        return tuple(unwrap(y) for y in x)
+    if isinstance(x, dict):
+        return {k: unwrap(v) for k, v in x.items()}
+    return x
+
+
+class _FrameMeta(type):
+    def __call__(cls, *a, **kw):
+        return SFrame(*a, **kw)
+
+    def __instancecheck__(cls, o):
+        return isinstance(o, (SFrame, _pd.DataFrame))
+
+
+class DataFrame(metaclass=_FrameMeta):
+    pass
+
+
+class _SeriesMeta(type):
+    def __call__(cls, data=None, index=None, dtype=None, name=None, **kw):
+        # string-labelled series over concrete data stay real pandas (chromsizes etc.) unless values are symbolic
+        try:
+            return SSeries(data, index=index, name=name, dtype=dtype)
+        except TypeError:
+            return _pd.Series(unwrap(data), index=unwrap(index), dtype=dtype, name=name, **kw)
+
+    def __instancecheck__(cls, o):
+        return isinstance(o, (SSeries, _pd.Series))
+
+
+class Series(metaclass=_SeriesMeta):
+    pass
+
+
+class _CatMeta(type):
+    def __call__(cls, values, categories=None, ordered=None, **kw):
+        if isinstance(values, SSeries):
+            values = values._col
+        if isinstance(values, SCat):
+            if categories is None or list(categories) == list(values.categories):
+                return SCat(values.codes, values.categories, values.ordered if ordered is None else ordered)
+            if not values.concrete():
+                # recode symbolic codes into the new category order
+                old = list(values.categories)
+                new = list(categories)
+                mapping = [new.index(c) if c in new else -1 for c in old]
+                codes = SArr([ite(x < 0, -1, _sel(mapping, x)) if isinstance(x, SInt) else (mapping[x] if x >= 0 else -1)
+                              for x in values.codes.items], "int64")
+                return SCat(codes, categories, builtins.bool(ordered))
+            values = values.to_real()
+        if isinstance(values, SArr):
+            if not values.concrete():
+                raise Inconclusive("Categorical over symbolic values")
+            values = values.to_real()
+        return as_col(_pd.Categorical(values, categories=categories, ordered=ordered, **kw))
+
+    def __instancecheck__(cls, o):
+        return isinstance(o, (SCat, _pd.Categorical))
+
+    def from_codes(cls, codes, categories=None, ordered=None, **kw):
+        if isinstance(codes, SSeries):
+            codes = codes._col
+        if hasattr(categories, "_col"):
+            categories = categories._col
+        codes = _A(codes) if not isinstance(codes, SArr) else codes
+        cats = list(categories) if not isinstance(categories, _pd.Index) else categories
+        ncat = len(cats)
+        if codes.items and not builtins.bool(and_(*[and_(x >= -1, x < ncat) for x in codes.items])):
+            raise ValueError("codes need to be between -1 and len(categories)-1")
+        return SCat(codes, cats, builtins.bool(ordered))
+
+
+class Categorical(metaclass=_CatMeta):
+    pass
+
+
+def concat(objs, axis=0, ignore_index=False, **kw):
+    objs = [o for o in objs if o is not None]
+    if not objs:
+        raise ValueError("No objects to concatenate")
+    objs = [SFrame(o) if isinstance(o, _pd.DataFrame) else (SSeries(o) if isinstance(o, _pd.Series) else o) for o in objs]
+    if axis in (1, "columns"):
+        r = SFrame()
+        n = None
+        for o in objs:
+            if isinstance(o, SSeries):
+                o = o.to_frame()
+            if n is not None and len(o) != n:
+                raise Inconclusive("concat(axis=1) with different lengths")
+            n = len(o)
+            for k, c in o._cols.items():
+                if k in r._cols:
+                    raise Inconclusive("concat(axis=1) duplicate column")
+                r._cols[k] = c
+            if r._index is None:
+                r._index = o._index
+        return r
+    if _b_all(isinstance(o, SSeries) for o in objs):
+        col = col_concat([o._col for o in objs])
+        idx = None
+        if not ignore_index:
+            idx = SIndex(symnp.concatenate([_index_arr(o._index, len(o)) for o in objs]))
+        return SSeries(_col=col, _index=idx, name=objs[0].name)
+    names = list(objs[0]._cols)
+    for o in objs[1:]:
+        for k in o._cols:
+            if k not in names:
+                names.append(k)
+    r = SFrame()
+    for k in names:
+        parts = []
+        for o in objs:
+            if k not in o._cols:
+                raise Inconclusive("concat with differing columns")
+            parts.append(o._cols[k])
+        r._cols[k] = col_concat(parts)
+    if not ignore_index:
+        ias = [_index_arr(o._index, len(o)) for o in objs]
+        if _b_all(isinstance(a, SArr) for a in ias):
+            r._index = SIndex(symnp.concatenate(ias))
+        else:
+            r._index = _pd.Index(_np.concatenate([_np.asarray(col_real(a)) for a in ias]))
+    return r
